@@ -59,7 +59,7 @@ theorem not_reset :
 /-- a call sees the previous state only through what `entry` keeps -/
 theorem call_entry (T : Tables) (cfg : Cfg) (prev prev' : St) (h : prev.entry cfg = prev'.entry cfg) (chunks : List Bytes) :
     call T cfg prev chunks = call T cfg prev' chunks := by
-  unfold call
+  unfold call callWith
   rw [h]
 
 /-- what `entry` keeps (the code as it is) -/
